@@ -1184,7 +1184,7 @@ class Evaluator:
                     if isinstance(e, ast.Starred):
                         self.assign(e.value, ("unpack_rest", v, const(i)), state, func)
                     else:
-                        self.assign(e, ("index", v, const(i)), state, func)
+                        self.assign(e, self._positional(v, i), state, func)
         elif isinstance(tgt, ast.Attribute):
             base = tgt.value
             if isinstance(base, ast.Name) and base.id in state.env:
@@ -1651,6 +1651,8 @@ class Evaluator:
                 return None
             for kind, payload, inner in dec:
                 pieces.append((kind, payload, extra, inner))
+        if len(pieces) > 1 and not has_break:
+            pieces = _merge_complementary(pieces)
         res = oldv
         for kind, payload, extra, inner in pieces:
             res = _mk_accum(kind, res, payload, ((pat, it, tuple(extra)),) + tuple(inner), bool(has_break))
@@ -2123,8 +2125,20 @@ class Evaluator:
                 if isinstance(v, ast.Constant):
                     parts.append(const(v.value))
                 elif isinstance(v, ast.FormattedValue):
-                    parts.append(("fmt", self.eval1(v.value, state, func), const(v.conversion)))
-            return [(state, ("fstr", tuple(parts)))]
+                    inner_ = self.eval1(v.value, state, func)
+                    if inner_[0] == "const" and isinstance(inner_[1], str) and v.conversion == -1 and v.format_spec is None:
+                        parts.append(inner_)  # f"{'P'}[" is "P["
+                    elif inner_[0] == "fstr" and v.conversion == -1 and v.format_spec is None:
+                        parts.extend(inner_[1])  # an f-string spliced into an f-string
+                    else:
+                        parts.append(("fmt", inner_, const(v.conversion)))
+            merged_: list = []
+            for q_ in parts:
+                if merged_ and q_[0] == "const" and isinstance(q_[1], str) and merged_[-1][0] == "const" and isinstance(merged_[-1][1], str):
+                    merged_[-1] = const(merged_[-1][1] + q_[1])
+                else:
+                    merged_.append(q_)
+            return [(state, ("fstr", tuple(merged_)))]
         if isinstance(e, ast.Lambda):
             # alpha-canonical closure: ('lam', (bound parameter variables), body term); free names are captured by value
             a = e.args
@@ -2314,9 +2328,34 @@ class Evaluator:
                 return [(state, ("bound", b, attr))]
         return [(state, ("attr", b, attr))]
 
+    def _namedtuple_fields(self, v: Term):
+        """field names of v's class when it is a typing.NamedTuple (position i IS field i), else None"""
+        c = self.cls_of(v)
+        if c is None:
+            typ = self.typeof(v)
+            if isinstance(typ, tuple) and typ and typ[0] == "union":
+                cs = [self.model.classes.get(t_[1]) for t_ in typ[1] if isinstance(t_, tuple) and t_ and t_[0] == "cls"]
+                cs = [x for x in cs if x is not None]
+                c = cs[0] if len(cs) == 1 else None
+        if c is None:
+            return None
+        if not any(isinstance(b, ast.Name) and b.id == "NamedTuple" or isinstance(b, ast.Attribute) and b.attr == "NamedTuple" for b in c.base_exprs):
+            return None
+        return list(c.all_fields())
+
+    def _positional(self, v: Term, i: int) -> Term:
+        fs = self._namedtuple_fields(v)
+        if fs is not None and -len(fs) <= i < len(fs):
+            return ("attr", v, fs[i])  # a NamedTuple's position i is its i-th field: one spelling (the field) is kept
+        return ("index", v, const(i))
+
     def get_item(self, b: Term, i: Term, state: State, func: Func, line: int):
         if b[0] in ("tuplelit", "listlit") and i[0] == "const" and isinstance(i[1], int) and -len(b[1]) <= i[1] < len(b[1]):
             return [(state, b[1][i[1]])]
+        if i[0] == "const" and isinstance(i[1], int) and not isinstance(i[1], bool) and b[0] in ("var", "call", "meth", "attr", "recurse"):
+            t_ = self._positional(b, i[1])
+            if t_[0] == "attr":
+                return [(state, t_)]
         if b[0] == "dictlit":
             for k, v in b[1]:
                 if k == i:
@@ -2869,7 +2908,7 @@ class Evaluator:
                 if r.qname in self.primitives or (r.cls is not None and r.cls.qname in self.opaque_classes):
                     return [(state, self.prim_call(r, args, kwargs, cls_term=f[2]))]
                 if r.is_classmethod:
-                    return self.inline(r, args, kwargs, state, func, line, self_term=f[2])
+                    return self.inline(r, args, kwargs, state, func, line, self_term=f[2], call_ast=e)
                 if r.is_staticmethod:
                     return self.inline(r, args, kwargs, state, func, line)
                 # Class.method(instance, ...)
@@ -2881,7 +2920,7 @@ class Evaluator:
                 self.calls_resolved += 1
                 if r.qname in self.primitives:
                     return [(state, self.prim_meth(f[2], r, args, kwargs))]
-                return self.inline(r, args, kwargs, state, func, line, self_term=f[2])
+                return self.inline(r, args, kwargs, state, func, line, self_term=f[2], call_ast=e)
         if h == "bound" and f[2] in ("__eq__", "__ne__") and len(args) == 1 and not kwargs:
             # x.__eq__(y) as a predicate (filter(one.__eq__, xs)): the comparison itself
             r_ = self.compare(ast.Eq() if f[2] == "__eq__" else ast.NotEq(), f[1], args[0])
@@ -2896,10 +2935,10 @@ class Evaluator:
                     t = self.prim_meth(recv, m, args, kwargs)
                     return self._maybe_effect(t, e, state, stmt_ctx, line)
                 if m.is_classmethod:
-                    return self.inline(m, args, kwargs, state, func, line, self_term=("ref", c.qname))
+                    return self.inline(m, args, kwargs, state, func, line, self_term=("ref", c.qname), call_ast=e)
                 if m.is_staticmethod:
-                    return self.inline(m, args, kwargs, state, func, line)
-                return self.inline(m, args, kwargs, state, func, line, self_term=recv)
+                    return self.inline(m, args, kwargs, state, func, line, call_ast=e)
+                return self.inline(m, args, kwargs, state, func, line, self_term=recv, call_ast=e)
         if h == "attr":
             recv, name = f[1], f[2]
             self.calls_resolved += 1 if self.typeof(recv) is not None else 0
@@ -3937,6 +3976,35 @@ def _guard_is_vacuous(test: ast.expr, it: ast.expr) -> bool:
         if fn in ("combinations", "permutations") and isinstance(r, ast.Constant) and isinstance(r.value, int) and k <= r.value:
             return True
     return False
+
+
+def _merge_complementary(pieces: list) -> list:
+    """The same update made on two paths of the loop body that differ in ONE test only (`if a: X` followed by an independent `if b: Y` gives X
+    under a∧b and under a∧¬b) is the update under the remaining tests: (S ∧ c) ∨ (S ∧ ¬c) = S."""
+    def neg(c):
+        return c[1] if c[0] == "not" else ("not", c)
+    out = list(pieces)
+    changed = True
+    while changed:
+        changed = False
+        for i in range(len(out)):
+            for j in range(i + 1, len(out)):
+                k1, p1, e1, in1 = out[i]
+                k2, p2, e2, in2 = out[j]
+                if (k1, p1, in1) != (k2, p2, in2) or len(e1) != len(e2):
+                    continue
+                s1, s2 = list(e1), list(e2)
+                d1 = [c for c in s1 if c not in s2]
+                d2 = [c for c in s2 if c not in s1]
+                if len(d1) == 1 and len(d2) == 1 and (d1[0] == neg(d2[0]) or d2[0] == neg(d1[0])):
+                    merged = (k1, p1, tuple(c for c in s1 if c != d1[0]), in1)
+                    out = [x for n_, x in enumerate(out) if n_ not in (i, j)]
+                    out.insert(i, merged)
+                    changed = True
+                    break
+            if changed:
+                break
+    return out
 
 
 def _body_reads_name(stmts: list, name: str) -> bool:
